@@ -685,6 +685,9 @@ FIXED = [  # nested-shift shapes enumerated first (where both codings of the com
     ('shift', 2, ('shift', -1, ('shift', -1, ('var', 0)))), ('shift', -1, ('shift', 2, ('shift', -2, ('var', 0)))),
     ('mul', ('var', 0), ('cdiv', 2, ('var', 1))), ('mul', ('var', 0), ('div', ('var', 2), ('var', 1))),
     ('sub', ('cdiv', 3, ('var', 1)), ('pow', ('var', 0), 2)),
+    # every reflected scalar operation under a lag (the value before date 0 is the operation applied to the INITIAL steady state)
+    ('shift', -1, ('cdiv', 2, ('var', 0))), ('shift', -2, ('add', ('cdiv', 3, ('var', 1)), ('var', 0))), ('shift', -1, ('rpow', 2, ('var', 0))),
+    ('shift', -1, ('sub', ('num', 5, 'int'), ('var', 0))), ('shift', -2, ('mul', ('num', 3, 'int'), ('var', 1))), ('shift', -1, ('add', ('num', 2, 'int'), ('mul', ('var', 0), ('var', 1)))),
 ]
 
 
@@ -761,6 +764,67 @@ def check_applied_functions():
     return out
 
 
+def has_app(e):
+    return isinstance(e, (tuple, list)) and len(e) > 0 and (e[0] == 'app' or any(has_app(x) for x in e[1:] if isinstance(x, (tuple, list))))
+
+
+def tuplify_app(e):
+    return tuple(tuplify_app(x) if isinstance(x, list) else x for x in e) if isinstance(e, (list, tuple)) else e
+
+
+def check_app_hints(ctx, hints):
+    """correspondence disagreements on programs with applied functions, re-examined on the implementation alone: Jacobian columns vs central differences of the block's own impulse_nonlinear,
+    zero shock, steady state vs the nonlinear path's base"""
+    cases = [h['case'] for h in hints if h.get('case') and 'outs' in h['case'] and any(has_app(e) for e in h['case']['outs'])][:12]
+    if not cases:
+        return [], 0
+    d = os.path.join(C.WORK, 'C02')
+    os.makedirs(d, exist_ok=True)
+    name = f'c02_apph_{ctx["seed"]}_{ctx["tier"]}'
+    blocks = [dict(nin=c['nin'], outs=[tuplify_app(e) for e in c['outs']], T=min(c['T'], 6), ss=c['ss']) for c in cases]
+    with open(os.path.join(d, name + '.py'), 'w') as f:
+        f.write('import numpy as np\nfrom sequence_jacobian import simple\n\n' + '\n'.join(src for src, _ in APPLY_FUNS.values()) + '\n')
+        for k, b in enumerate(blocks):
+            f.write(f'@simple\ndef blk{k}({", ".join(f"x{i}" for i in range(b["nin"]))}):\n')
+            for j, e in enumerate(b['outs']):
+                f.write(f'    y{j} = {py_app(e)}\n')
+            f.write('    return ' + ', '.join(f'y{j}' for j in range(len(b['outs']))) + '\n\n')
+    if d not in sys.path:
+        sys.path.insert(0, d)
+    importlib.invalidate_caches()
+    sys.modules.pop(name, None)
+    mod = importlib.import_module(name)
+    out, h = [], 1e-4
+    for k, b in enumerate(blocks):
+        blk, nin, T = getattr(mod, f'blk{k}'), b['nin'], b['T']
+        W = T + 16
+        inp = dict(kind='applied-block', outs=b['outs'], src=[py_app(e) for e in b['outs']], ss=b['ss'], T=T, nin=nin)
+        try:
+            ss = blk.steady_state({f'x{i}': float(v) for i, v in enumerate(b['ss'])})
+            J = blk.jacobian(ss, inputs=[f'x{i}' for i in range(nin)], T=T)
+            v = None
+            for i in range(nin):
+                z = blk.impulse_nonlinear(ss, {f'x{i}': np.zeros(T)})
+                if any(np.abs(np.asarray(z[o])).max() > 1e-9 for o in z):
+                    v = dict(what='a zero shock does not return zero deviations (block with applied functions)', input=inp, signature=dict(op='applied', what='zero-shock'))
+                for s_ in range(T):
+                    dx = np.zeros(W)
+                    dx[s_] = h
+                    up, dn = blk.impulse_nonlinear(ss, {f'x{i}': dx}), blk.impulse_nonlinear(ss, {f'x{i}': -dx})
+                    for j in range(len(b['outs'])):
+                        fd = (np.asarray(up[f'y{j}']) - np.asarray(dn[f'y{j}']))[:T] / (2 * h)
+                        e = J.nesteddict.get(f'y{j}', {}).get(f'x{i}')
+                        col = np.zeros(T) if e is None else e.matrix(W)[:T, s_]
+                        if np.all(np.isfinite(fd)) and np.abs(fd - col).max() > 2e-5 * max(1.0, np.abs(fd).max(), np.abs(col).max()):
+                            v = v or dict(what='Jacobian of a block with applied functions differs from the derivative of its own nonlinear impulse', input=dict(inp, output=j, input_name=i, s=s_),
+                                          observed=col.tolist(), expected=fd.tolist(), signature=dict(op='applied', what='jac-vs-nonlinear'))
+        except Exception as ex:
+            v = dict(what=f'block with applied functions raised {type(ex).__name__}: {ex}', input=inp, signature=dict(op='raise', exc=type(ex).__name__))
+        if v:
+            out.append(v)
+    return out, len(blocks)
+
+
 def oracle(ctx, hints, broken):
     rng = ctx['rng']
     deep = bool(broken) or ctx['tier'] == 'thorough'
@@ -768,13 +832,17 @@ def oracle(ctx, hints, broken):
     for v in check_applied_functions():
         C.push(viol, v)
     n += 2
+    va, na = check_app_hints(ctx, hints)
+    for v in va:
+        C.push(viol, v)
+    n += na
     blocks = []
     for e in FIXED:
         for ss in ([2, 4, 3], [1.5, 4, 2]):
             blocks.append(dict(nin=3, outs=[e], T=6, ss=ss, ssi=ss, use_ssi=False, shocked=[0], paths={}))
     for h in hints:
         c = h.get('case')
-        if c and 'outs' in c:
+        if c and 'outs' in c and not any(has_app(e) for e in c['outs']):
             blocks.append(dict(nin=c['nin'], outs=[tuplify(e) for e in c['outs']], T=c['T'], ss=c['ss'], ssi=c['ss'], use_ssi=False, shocked=[0], paths={}))
     blocks += [gen_block(rng, ring=(k % 3 == 0)) for k in range(60 if not deep else 400)]
     for b in blocks:
@@ -811,6 +879,9 @@ def replay(rp):
     c = rp.get('input') or {}
     if c.get('kind') == 'd14':
         return d14_probe()
+    if c.get('kind') == 'applied-block':
+        v, _ = check_app_hints(dict(seed=0, tier='replay'), [dict(case=c)])
+        return v[0] if v else None
     if 'outs' not in c:
         return None
     b = dict(nin=c['nin'], outs=[tuplify(e) for e in c['outs']], T=c['T'], ss=c['ss'], ssi=c['ss'], use_ssi=False, shocked=[0], paths={})
